@@ -30,7 +30,10 @@ def features(prog):
     for q in nodes:
         if q[0] == "swv" and q[4] is not None and any(r[0] == "swv" and r[4] is not None for r in progs.all_nodes(q)[1:]):
             nested = True
-    return {"nested_swv_reduction": nested, "has_broadcast_to": any(q[0] == "broadcast_to" for q in nodes),
+    # BroadcastTo nodes also come from inside API calls (pad with mode='edge' / tile / apply_along_axis ...)
+    internal_bt = any(q[0] == "call" and q[1] in ("pad", "tile", "apply_along_axis", "apply_along_axis_scalar", "block22", "hstack", "vstack", "dstack", "cov", "average_w", "gradient")
+                      for q in nodes)
+    return {"nested_swv_reduction": nested, "has_broadcast_to": any(q[0] == "broadcast_to" for q in nodes) or internal_bt,
             "nonpointwise_map_blocks": any(q[0] == "map_blocks" and q[1] in ("reverse", "plus_blocksum") for q in nodes)}
 
 
